@@ -27,7 +27,8 @@ WALL = {"quick": 900, "thorough": 7200}
 REQUIRED = {"trees_compared": 400, "conditional_includes": 400, "else_branches": 100, "inactive_includes": 150,
             "active_errors": 15, "inactive_errors": 60, "nested_includes": 200, "repeated_names": 100,
             "whitespace_variants": 400, "independence_checks": 100, "conditional_type_entries": 100, "max_depth": 3,
-            "after_moleculetype_cases": 20, "relative_path_readings": 400}
+            "after_moleculetype_cases": 20, "relative_path_readings": 400,
+            "repeated_molecule_includes": 30}
 TYPES = ["a", "b", "c"]
 MACROS = ["FOO", "BAR", "BAZ"]
 
@@ -49,7 +50,7 @@ class Tree:
         self.nf = 0
         self.molnames = []
         self.type_files = []
-        self.stats = {"cond": 0, "else": 0, "nested": 0, "errors": 0, "depth": 0, "cond_types": 0}
+        self.stats = {"cond": 0, "else": 0, "nested": 0, "errors": 0, "depth": 0, "cond_types": 0, "repeated_mol_includes": 0}
 
     def unit_types(self):
         rng = self.rng
@@ -183,8 +184,15 @@ def build(rng, after_mol=False):
         if rng.random() < 0.2:
             top.append("; comment")
     # phase B: molecule definitions (inline or in include files, possibly behind conditionals)
+    mol_incs = []
     for _ in range(rng.randint(0, 3)):
-        top += g.include_block(0, ".", "mols")
+        blk = g.include_block(0, ".", "mols")
+        top += blk
+        if len(blk) == 1:
+            mol_incs.append(blk[0])
+    if mol_incs and rng.random() < 0.2:
+        top.append(rng.choice(mol_incs))          # the same molecule file included a second time
+        g.stats["repeated_mol_includes"] = 1
     for _ in range(rng.randint(0 if g.molnames else 1, 2)):
         mn = "M%d" % len(g.molnames)
         g.molnames.append(mn)
@@ -312,6 +320,8 @@ def snap(t):
             "mols": [m.mol_name for m in t.molecules],
             "mol_atoms": [[(m.molecule.nodes[x].get("atomname"), m.molecule.nodes[x].get("atype")) for x in m.molecule.nodes]
                           for m in t.molecules],
+            "mol_res_edges": [sorted(map(sorted, m.edges)) for m in t.molecules],
+            "mol_atom_edges": [sorted(map(sorted, m.molecule.edges)) for m in t.molecules],
             "idx": {k: list(v) for k, v in t.mol_idx_by_name.items() if v}}
 
 
@@ -385,6 +395,7 @@ def run_case(cid, rng, workdir):
     bump(res, "inactive_errors", info["errors_inactive"])
     bump(res, "conditional_type_entries", g.stats["cond_types"])
     bump(res, "max_depth", g.stats["depth"])
+    bump(res, "repeated_molecule_includes", g.stats["repeated_mol_includes"])
     if len({n for n, _ in mols}) < len(mols):
         bump(res, "repeated_names")
     res["nontrivial"] = (g.stats["cond"] + g.stats["errors"]) >= 1 and len(files) >= 2
